@@ -61,6 +61,14 @@ def _iter_population(ctx, f, it):
             g = R.slot_methods.get(key)
             if g is not None and ('A:' + a) in P.writes(g):
                 return a, 'counts over `%s`; that table also receives entries for read-only nodes (%s writes it), so non-voters are counted' % (unparse(it), g.qualname), None
+        for g in P.methods_of(R.S):
+            for acc in P.accesses(g):
+                if acc.attr == a and acc.kind == 'elem_write':
+                    gcfg = U.explorer(ctx, g).cfg
+                    n = U.node_containing(gcfg, acc.node)
+                    for lp in [p_ for p_ in (n.parents if n is not None else ()) if isinstance(p_, ast.For)]:
+                        if any(P.self_attr(x, g.self_name) == R.observers for x in ast.walk(lp.iter)):
+                            return a, 'counts over `%s`; %s fills that table for read-only nodes too (loop over `%s`), so non-voters are counted' % (unparse(it), g.qualname, unparse(lp.iter)), None
         return a, None, 'population `%s` is not syntactically the voter set' % unparse(it)
     return None, None, 'population `%s` not understood' % unparse(it)
 
